@@ -1,10 +1,15 @@
-//@unit name=redohandlers props=C01,C02
+//@unit name=redohandlers props=C01,C02,C08
 //@strip-pub
 // Unit `redohandlers`: the DML handlers of recovery (C01: committed work is REDONE; C02: unfinished
 // work is UNDONE).  Which records are applied was decided by the analysis pass (unit analysis) and
 // dispatched by run_redo / run_undo (unit recovery); a handler must then apply the image it is
 // given -- unconditionally.  In particular it must not look at the image through the recovery
 // transaction's snapshot, whose horizon is the stale `last committed` of the last checkpoint.
+//   C08 "the database opens after a crash": undo must be repeatable. It runs before redo, against a
+//   data file that (NO-STEAL) holds nothing of the transaction it undoes; the table of the undone
+//   operation may not exist in that state at all (created since the last checkpoint). The undo of
+//   an operation on a table that is not there is NOTHING -- not an error that fails the recovery for
+//   ever (fix ebb7d7c). On a table that is there the handler applies the inverse as before.
 //@trusted [env] DmlExecutor::{insert, update_row, delete} (unit dmlwal) are abstract effects on a ghost trace; Row::from_bytes_checked decodes the newest version of a logged tuple image; catalog lookup is abstract
 //@trusted [sub] `.expect("..")` on the record's object / row id is `.unwrap()` (ids are always set for DML records: WAL record constructors)
 use vstd::prelude::*;
@@ -12,7 +17,8 @@ use vstd::prelude::*;
 verus! {
 
 type ObjectId = u64;
-pub struct RtError { pub code: u8 }
+pub enum RtError { TableNotFound(u64), Other(u8) }
+pub type CatalogError = RtError;
 pub type RuntimeResult<T> = Result<T, RtError>;
 
 #[verifier::external_body]
@@ -27,13 +33,19 @@ pub struct Relation { _p: () }
 impl Relation { #[verifier::external_body] pub fn schema(&self) -> &Schema { unimplemented!() } }
 #[verifier::external_body]
 pub struct Catalog { _p: () }
-impl Catalog { #[verifier::external_body] pub fn get_relation(&self, id: ObjectId, b: &BtreeBuilder, s: &Snapshot) -> RuntimeResult<Relation> { unimplemented!() } }
+impl Catalog {
+    pub uninterp spec fn has(&self, id: ObjectId) -> bool;      // the table exists in the state that is being recovered
+    #[verifier::external_body]
+    pub fn get_relation(&self, id: ObjectId, b: &BtreeBuilder, s: &Snapshot) -> (r: RuntimeResult<Relation>)
+        ensures r is Ok ==> self.has(id), r matches Err(RtError::TableNotFound(_)) ==> !self.has(id), !self.has(id) ==> r matches Err(RtError::TableNotFound(_)) { unimplemented!() }
+}
 #[verifier::external_body]
 pub struct ThreadContext { _p: () }
 impl ThreadContext {
     #[verifier::external_body] pub fn tree_builder(&self) -> BtreeBuilder { unimplemented!() }
     #[verifier::external_body] pub fn snapshot(&self) -> &Snapshot { unimplemented!() }
-    #[verifier::external_body] pub fn catalog(&self) -> &Catalog { unimplemented!() }
+    pub uninterp spec fn cat(&self) -> &Catalog;
+    #[verifier::external_body] pub fn catalog(&self) -> (r: &Catalog) ensures r == self.cat() { unimplemented!() }
 }
 pub struct UInt64(pub u64);
 impl UInt64 { pub fn from(v: u64) -> (r: UInt64) ensures r.0 == v { UInt64(v) } }
@@ -53,17 +65,18 @@ pub enum Eff { Insert(u64, Row), Update(u64, u64, Row, Row), Delete(u64, u64) }
 pub struct DmlExecutor { c: ThreadContext, trace: Ghost<Seq<Eff>> }
 impl DmlExecutor {
     pub closed spec fn effects(&self) -> Seq<Eff> { self.trace@ }
+    pub closed spec fn context(&self) -> &ThreadContext { &self.c }
     #[verifier::external_body]
-    pub fn ctx(&self) -> &ThreadContext { unimplemented!() }
+    pub fn ctx(&self) -> (r: &ThreadContext) ensures r == self.context() { unimplemented!() }
     #[verifier::external_body]
     pub fn insert(&mut self, table_id: ObjectId, columns: &Vec<usize>, values: &Row) -> (r: RuntimeResult<u64>)
-        ensures r is Ok ==> final(self).trace@ == old(self).trace@.push(Eff::Insert(table_id, *values)), r is Err ==> final(self).trace@ == old(self).trace@ { unimplemented!() }
+        ensures r is Ok ==> final(self).trace@ == old(self).trace@.push(Eff::Insert(table_id, *values)), r is Err ==> final(self).trace@ == old(self).trace@, final(self).c == old(self).c { unimplemented!() }
     #[verifier::external_body]
     pub fn update_row(&mut self, table_id: ObjectId, row_id: &UInt64, old_row: &Row, new_row: &Row) -> (r: RuntimeResult<u64>)
-        ensures r is Ok ==> final(self).trace@ == old(self).trace@.push(Eff::Update(table_id, row_id.0, *old_row, *new_row)), r is Err ==> final(self).trace@ == old(self).trace@ { unimplemented!() }
+        ensures r is Ok ==> final(self).trace@ == old(self).trace@.push(Eff::Update(table_id, row_id.0, *old_row, *new_row)), r is Err ==> final(self).trace@ == old(self).trace@, final(self).c == old(self).c { unimplemented!() }
     #[verifier::external_body]
     pub fn delete(&mut self, table_id: ObjectId, row_id: &UInt64) -> (r: RuntimeResult<u64>)
-        ensures r is Ok ==> final(self).trace@ == old(self).trace@.push(Eff::Delete(table_id, row_id.0)), r is Err ==> final(self).trace@ == old(self).trace@ { unimplemented!() }
+        ensures r is Ok ==> final(self).trace@ == old(self).trace@.push(Eff::Delete(table_id, row_id.0)), r is Err ==> final(self).trace@ == old(self).trace@, final(self).c == old(self).c { unimplemented!() }
 }
 
 #[verifier::external_body]
@@ -108,6 +121,15 @@ pub struct WalRecuperator { dml_executor: DmlExecutor }
 
 impl WalRecuperator {
     pub closed spec fn effects(&self) -> Seq<Eff> { self.dml_executor.effects() }
+    pub closed spec fn table_exists(&self, id: ObjectId) -> bool { self.dml_executor.context().cat().has(id) }
+
+//@fn crates/axmos-db/src/io/recovery.rs | impl WalRecuperator | undo_target_exists
+//@ sub /Err\(other\) => Err\(other\.into\(\)\),/ => Err(other) => Err(other),
+//@ ensures
+//@   [C08,C02:undo.the_target_test_says_whether_the_table_is_there] r matches Ok(b) ==> b == self.table_exists(table_id),
+//@   [C08:undo.a_missing_table_is_not_an_error] !self.table_exists(table_id) ==> r is Ok,
+//@end
+
 
 //@fn crates/axmos-db/src/io/recovery.rs | impl WalRecuperator | redo_insert
 //@ sub /\.expect\("[^"]*"\)/ => .unwrap()
@@ -141,7 +163,8 @@ impl WalRecuperator {
 //@ requires
 //@   update_op.oid() is Some && update_op.rid() is Some,
 //@ ensures
-//@   [C02:undo.update_applies_new_to_old] r is Ok ==> final(self).effects() == old(self).effects().push(Eff::Update(update_op.oid()->0, update_op.rid()->0, decoded(update_op.redo_img()), decoded(update_op.undo_img()))),
+//@   [C08,C02:undo.an_update_of_a_table_that_is_not_there_is_nothing] !old(self).table_exists(update_op.oid()->0) ==> r is Ok && final(self).effects() == old(self).effects(),
+//@   [C02:undo.update_applies_new_to_old] r is Ok && old(self).table_exists(update_op.oid()->0) ==> final(self).effects() == old(self).effects().push(Eff::Update(update_op.oid()->0, update_op.rid()->0, decoded(update_op.redo_img()), decoded(update_op.undo_img()))),
 //@end
 
 //@fn crates/axmos-db/src/io/recovery.rs | impl WalRecuperator | undo_delete
@@ -149,7 +172,8 @@ impl WalRecuperator {
 //@ requires
 //@   delete_op.oid() is Some,
 //@ ensures
-//@   [C02:undo.delete_reinserts_the_old_row] r is Ok ==> final(self).effects() == old(self).effects().push(Eff::Insert(delete_op.oid()->0, decoded(delete_op.undo_img()))),
+//@   [C08,C02:undo.a_delete_from_a_table_that_is_not_there_is_nothing] !old(self).table_exists(delete_op.oid()->0) ==> r is Ok && final(self).effects() == old(self).effects(),
+//@   [C02:undo.delete_reinserts_the_old_row] r is Ok && old(self).table_exists(delete_op.oid()->0) ==> final(self).effects() == old(self).effects().push(Eff::Insert(delete_op.oid()->0, decoded(delete_op.undo_img()))),
 //@end
 
 //@fn crates/axmos-db/src/io/recovery.rs | impl WalRecuperator | undo_insert
@@ -158,7 +182,8 @@ impl WalRecuperator {
 //@ requires
 //@   insert_op.oid() is Some && insert_op.rid() is Some,
 //@ ensures
-//@   [C02:undo.insert_deletes_the_row] r is Ok ==> final(self).effects() == old(self).effects().push(Eff::Delete(insert_op.oid()->0, insert_op.rid()->0)),
+//@   [C08,C02:undo.an_insert_into_a_table_that_is_not_there_is_nothing] !old(self).table_exists(insert_op.oid()->0) ==> r is Ok && final(self).effects() == old(self).effects(),
+//@   [C02:undo.insert_deletes_the_row] r is Ok && old(self).table_exists(insert_op.oid()->0) ==> final(self).effects() == old(self).effects().push(Eff::Delete(insert_op.oid()->0, insert_op.rid()->0)),
 //@end
 }
 
